@@ -202,10 +202,10 @@ PROP = dict(
         32: "weights outside contract: panic",
         40: "weight bytes: Ok", 41: "weight bytes: error", 42: "weight bytes: panic",
         50: "MEDIT binary, listed block types: read back Ok", 51: "MEDIT binary, listed: error", 52: "MEDIT binary, listed: panic",
-        60: "MEDIT binary with Vertex/Quadrangle blocks or node numbers >= 2^63-1: Ok", 61: "same: error", 62: "same: panic",
+        60: "MEDIT binary with Vertex/Quadrangle blocks or node numbers >= 2^63-1: Ok", 61: "MEDIT binary outside contract: error", 62: "MEDIT binary outside contract: panic (writer `node + 1` / reader `0 - 1`)",
         70: "MEDIT ASCII in contract: read back Ok", 71: "MEDIT ASCII in contract: error", 72: "MEDIT ASCII in contract: panic",
-        80: "MEDIT ASCII outside contract (Vertex block / NaN payload / node number usize::MAX): Ok", 81: "same: error",
-        82: "same: panic",
+        80: "MEDIT ASCII outside contract (Vertex block / NaN payload / node number usize::MAX): Ok", 81: "MEDIT ASCII outside contract: error",
+        82: "MEDIT ASCII outside contract: panic (writer `node + 1`)",
         90: "parse_binary on foreign bytes: Ok", 91: "parse_binary: error", 92: "parse_binary: panic",
         94: "parse_ascii on mutated text: Ok", 95: "parse_ascii: error", 96: "parse_ascii: panic",
         98: "from_reader on foreign bytes: Ok", 99: "from_reader: error", 100: "from_reader: panic",
